@@ -71,6 +71,8 @@ func PointIndexOK(point string) bool { panic("ghost") }
 //@ define jsonval(x interface{}) bool = x == nil || is(x, string) || is(x, float64) || is(x, bool) || is(x, map[string]interface{}) || is(x, []interface{})
 //@ define wfDE(de *DepthExecutor) bool = de != nil && de.ctx != nil && de.ctx.Request != nil && de.PointDataExtractor != nil && forallT(u, string, has(de.ctx.Queryers, u) ==> de.ctx.Queryers[u] != nil)
 //@ define filled(q []*queryerResponse, ers []*ExecutionRequest, j int) bool = q[j] != nil && q[j].ExecutionRequest == ers[j]
+// C12 'stitched into every place': every request gets its own copy of a de-duplicated answer - two places never share the map that later levels merge into
+//@ define ownCopies(q []*queryerResponse) bool = forall(u, 0, len(q), forall(v, 0, u, q[u] != nil && q[v] != nil && q[u].Response != nil ==> q[u].Response != q[v].Response))
 
 //@ func (indexMap).Set
 //@ props C12 C06 C09
@@ -145,6 +147,7 @@ func PointIndexOK(point string) bool { panic("ghost") }
 //@ ensures[empty] len(ers) == 0 ==> qResps == nil @props C12
 //@ ensures[errkind] gqlerrors.nonvacuous(err) @props C09
 //@ ensures[fan-out] err == nil && len(ers) > 0 ==> len(qResps) == len(ers) && forall(j, 0, len(ers), filled(qResps, ers, j)) @props C12
+//@ ensures[own-copies] err == nil ==> ownCopies(qResps) @using copies @props C12
 //@ modifies fresh, entries(map[string]interface{}), elems(interface{}), elems(map[string]interface{}), entries(map[string]*PointData), global(queryer.QueryCalls), global(queryer.LastStatus), all(queryer.MultiOpQueryer.client), all(indexMapValue.indexes), elems(int)
 //@ loop 0 invariant[own] fresh(iMap) && fresh(nillResps) && (base(batchRequest) == 0 || fresh(batchRequest)) && iMap != nil && nillResps != nil
 //@ loop 0 invariant[calls] queryer.QueryCalls == old(queryer.QueryCalls)
@@ -155,13 +158,16 @@ func PointIndexOK(point string) bool { panic("ghost") }
 //@ loop 0 invariant[nills] forallT(j, int, has(nillResps, j) ==> 0 <= j && j < it) @using nills
 //@ loop 0 invariant[covered] forall(j, 0, it, has(nillResps, j) || existsT(k, string, has(iMap, k) && exists(p, 0, len(iMap[k].indexes), iMap[k].indexes[p] == j))) @using covered, dom, kept, own
 //@ loop 1 invariant[own] fresh(qResps) && len(qResps) == len(ers)
+//@ loop 1 invariant[copies] ownCopies(qResps) @using copies, own
 //@ loop 1 invariant[mono] forall(j, 0, len(ers), qResps[j] == nil || filled(qResps, ers, j))
 //@ loop 1 invariant[done] forallT(k, string, has(iMap, k) && iMap[k].targetIndex < it ==> forall(p, 0, len(iMap[k].indexes), filled(qResps, ers, iMap[k].indexes[p])))
 //@ loop 2 invariant[own] fresh(qResps) && len(qResps) == len(ers)
+//@ loop 2 invariant[copies] ownCopies(qResps) @using copies, own
 //@ loop 2 invariant[mono] forall(j, 0, len(ers), qResps[j] == nil || filled(qResps, ers, j))
 //@ loop 2 invariant[inner] forall(p, 0, it, filled(qResps, ers, indexes[p]))
 //@ loop 2 invariant[done] forallT(k, string, has(iMap, k) && iMap[k].targetIndex < i ==> forall(p, 0, len(iMap[k].indexes), filled(qResps, ers, iMap[k].indexes[p])))
 //@ loop 3 invariant[own] fresh(qResps) && len(qResps) == len(ers)
+//@ loop 3 invariant[copies] ownCopies(qResps) @using copies, own
 //@ loop 3 invariant[nill-range] forallT(j, int, has(nillResps, j) ==> 0 <= j && j < len(ers))
 //@ loop 3 invariant[mono] forall(j, 0, len(ers), qResps[j] == nil || filled(qResps, ers, j))
 //@ loop 3 invariant[nills] forallT(j, int, seen(j) ==> filled(qResps, ers, j))
@@ -169,8 +175,10 @@ func PointIndexOK(point string) bool { panic("ghost") }
 //@ end
 
 //@ func copyMap
-//@ props C09
+//@ props C09 C12
 //@ ensures[errkind] gqlerrors.nonvacuous(res1)
+// (a JSON round trip: encoding/json allocates the maps it decodes into)
+//@ assumes-post res0 == nil || fresh(res0)
 //@ modifies fresh
 //@ end
 
